@@ -202,3 +202,41 @@ package verifspec
 //@   ensures typeis(n, "*go/ast.CommentGroup") ==> len(comments) == len(old(comments)) + 1 && ref(comments[len(comments) - 1]) == ref(n)
 //@   ensures !typeis(n, "*go/ast.CommentGroup") ==> len(comments) == len(old(comments))
 //@   ensures forall(k, 0, len(old(imports)), imports[k] == old(imports)[k]) && forall(k, 0, len(old(comments)), comments[k] == old(comments)[k])
+
+// ---- the time stamp a package is looked up with (Session.LoadPackages): not earlier than the compiler binary, than any of
+// the package's own files, and than the time stamp of every package it imports (except unsafe) -- so a change anywhere
+// below invalidates the entry.  tinst(wall, ext) is the instant a time.Time value denotes; After compares instants.
+// need: ghost, the latest of the instants that have to be respected, accumulated where each of them is obtained.
+//@ pure tinst(w int, e int) int
+//@ axiom afterIsInstantOrder: all(a, b, c, d, timeAfter(a, b, c, d) == (tinst(a, b) > tinst(c, d)))
+//@ extern build.PackageData.FileModTime
+//@   param p
+//@   assigns nothing
+//@   ghost need = max(need, tinst(result.wall, result.ext))
+//@ extern build.Session.loadImportPathWithSrcDir
+//@   param s path srcDir
+//@   results p srcs err
+//@   ensures err == nil ==> p != nil
+//@   ghost need = err == nil ? max(need, tinst(p.SrcModTime.wall, p.SrcModTime.ext)) : need
+//@ extern build.parseAndAugment
+//@ extern build.embedFiles
+//@ extern go/token.NewFileSet
+//@   ensures result != nil
+//@ extern time.Now
+//@ extern compiler/sources.Sources.UnresolvedImports
+//@   param s skip
+//@ func build.Session.LoadPackages
+//@ property C20
+//@   panics_only_if true
+//@   requires s != nil && pkg != nil
+//@   ghost need = tinst(pkg.SrcModTime.wall, pkg.SrcModTime.ext)
+//@   oncall getExeModTime: assert true
+//@   oncall getExeModTime: then ghost need = max(need, tinst(r0.wall, r0.ext))
+//@   loop 1 invariant 0 <= $i1 && $i1 <= len(pkg.Imports) && need <= tinst(pkg.SrcModTime.wall, pkg.SrcModTime.ext)
+//@   loop 2 invariant true
+//@   oncall Load: assert need <= tinst(a2.wall, a2.ext)
+//@   oncall Load: assert a1 == pkg.ImportPath
+//@ extern build/cache.Cache.Load
+//@   param c cacheable importPath srcModTime
+//@ extern build/cache.Cache.Store
+//@   param c cacheable importPath buildTime
